@@ -20,7 +20,9 @@ for sid in sorted(os.listdir(os.path.join(V, "seeded"))):
             first = re.sub(r"^VIOLATION property=\S+\s*", "", f[0]).strip(" ()")[:110]
             break
     summ = re.sub(r"\s+", " ", m.get("summary", ""))[:120].replace("|", "/")
-    rows.append("| %s | %s | %s | %s |" % (sid, summ, ", ".join(caught) if caught else ("(not run)" if not r else "**not detected**"), first.replace("|", "/")))
+    broken = [p for p, c in r.get("checks", {}).items() if c["exit"] not in (0, 1)]
+    verdict = ", ".join(caught) if caught else ("(not run)" if not r else ("(machinery error: rerun)" if broken else "**not detected**"))
+    rows.append("| %s | %s | %s | %s |" % (sid, summ, verdict, first.replace("|", "/")))
 sec = sec.replace("@SEEDED@", "\n".join(rows))
 p = os.path.join(V, "DESIGN.md")
 s = open(p).read()
